@@ -303,6 +303,12 @@ class FSM:
         if self.__doctest:
             print('self._pipeline()')
         else:
+            # the scanner keeps what it found (registry of auto-registered
+            # classes) and imports with importlib, which the time machine
+            # never sees: forget both right before scanning so that this
+            # load sees the software that is on disk now and nothing
+            # re-imports the engine in between without being registered
+            dawgie.pl.scan.reset(dawgie.context.ae_base_package)
             facs = dawgie.pl.scan.for_factories(
                 dawgie.context.ae_base_path, dawgie.context.ae_base_package
             )
@@ -331,11 +337,6 @@ class FSM:
             dawgie.db.close()
             dawgie.context.git_rev = dawgie.context._rev()
             self.time_machine.reload()
-            # the scanner keeps what it found (registry of auto-registered
-            # classes) and imports with importlib, which the time machine
-            # never sees: forget both so that the coming load scans the
-            # software that is on disk now
-            dawgie.pl.scan.reset(dawgie.context.ae_base_package)
             pass
 
         log.info('exiting state updating (reload)')
